@@ -136,34 +136,35 @@ Definition dialect_report (d : str) (q : query) (extra : list construct) : list 
 
 (* ------------------------------------------------------------------ model of translate_select_pipeline's LIMIT/OFFSET/FETCH
    (gen_query.rs: offset = start-1, limit = end-offset; use_fetch: FETCH replaces LIMIT, then OFFSET 0 ROWS and an
-   ORDER BY are forced) -- returns the clause record and whether the query has an ORDER BY afterwards *)
-Definition limit_model_b (use_fetch ordered has_off has_lim : bool) : limit * bool :=
+   ORDER BY are forced; a dialect with limit_for_bare_offset gets a LIMIT next to an OFFSET that has none)
+   -- returns the clause record and whether the query has an ORDER BY afterwards *)
+Definition limit_model_b (use_fetch bare ordered has_off has_lim : bool) : limit * bool :=
+  let fix_lim := bare && has_off && negb has_lim in
   if use_fetch
-  then (mkLimit false (has_off || has_lim) (has_off || has_lim) has_lim, ordered || has_lim)
-  else (mkLimit has_lim has_off false false, ordered).
+  then (mkLimit fix_lim (has_off || has_lim) (has_off || has_lim) has_lim, ordered || has_lim)
+  else (mkLimit (has_lim || fix_lim) has_off false false, ordered).
 Definition has_off (s : option N) : bool := match s with Some x => negb (N.eqb (x - 1) 0) | None => false end.
 Definition has_lim (e : option N) : bool := match e with Some _ => true | None => false end.
-Definition limit_model (use_fetch ordered : bool) (s e : option N) : limit * bool :=
-  limit_model_b use_fetch ordered (has_off s) (has_lim e).
-Definition take_uses_b (use_fetch ordered ho hl : bool) : list construct :=
-  let r := limit_model_b use_fetch ordered ho hl in lim_uses (fst r) (snd r).
-Definition take_uses (use_fetch ordered : bool) (s e : option N) : list construct :=
-  take_uses_b use_fetch ordered (has_off s) (has_lim e).
+Definition limit_model (use_fetch bare ordered : bool) (s e : option N) : limit * bool :=
+  limit_model_b use_fetch bare ordered (has_off s) (has_lim e).
+Definition take_uses_b (use_fetch bare ordered ho hl : bool) : list construct :=
+  let r := limit_model_b use_fetch bare ordered ho hl in lim_uses (fst r) (snd r).
+Definition take_uses (use_fetch bare ordered : bool) (s e : option N) : list construct :=
+  take_uses_b use_fetch bare ordered (has_off s) (has_lim e).
 
-(* known classes: F27 (OFFSET without LIMIT where the engine has none) and OFFSET .. ROWS without ORDER BY under use_fetch *)
-Definition take_known_b (d : str) (use_fetch ordered ho hl : bool) : bool :=
-  (is_ d [d_sqlite; d_mysql] && ho && negb hl) || (use_fetch && negb ordered && ho && negb hl).
+(* known class (open): OFFSET .. ROWS without ORDER BY under use_fetch (T-SQL) *)
+Definition take_known_b (use_fetch ordered ho hl : bool) : bool := use_fetch && negb ordered && ho && negb hl.
 Definition bools : list bool := [true; false].
-Definition take_table {F} (uf : F -> bool) (fs : list (str * F)) (allow_known : bool) : bool :=
+Definition take_table {F} (uf bare : F -> bool) (fs : list (str * F)) (allow_known : bool) : bool :=
   forallb (fun df =>
     forallb (fun o => forallb (fun ho => forallb (fun hl =>
-      forallb (supported (fst df)) (take_uses_b (uf (snd df)) o ho hl)
-      || (allow_known && take_known_b (fst df) (uf (snd df)) o ho hl)) bools) bools) bools) fs.
+      forallb (supported (fst df)) (take_uses_b (uf (snd df)) (bare (snd df)) o ho hl)
+      || (allow_known && take_known_b (uf (snd df)) o ho hl)) bools) bools) bools) fs.
 
 (* ------------------------------------------------------------------ operators of std.sql.prql
-   find_operator_impl: the dialect module first, then the root module; a `null` body is "unsupported" (compile
-   error) unless gen_expr.rs emits the operator natively (operator_from_name) *)
-Inductive outcome := Emitted | CompileError | Unresolved.
+   find_operator_impl: the dialect module first, then the root module; a `null` body, or no implementation at all, is
+   "unsupported" (compile error) unless gen_expr.rs emits the operator natively (operator_from_name) *)
+Inductive outcome := Emitted | CompileError.
 Definition op_entry : Type := (list N * list N * bool * list (option (list N))).
 Fixpoint find_op (ops : list op_entry) (m op : str) : option bool :=
   match ops with
@@ -174,5 +175,5 @@ Definition resolve_op (ops : list op_entry) (d op : str) : option bool :=
   match find_op ops d op with Some b => Some b | None => find_op ops [] op end.
 Definition op_outcome (ops : list op_entry) (natives : list str) (d op : str) : outcome :=
   if existsb (leqb op) natives then Emitted
-  else match resolve_op ops d op with Some true => CompileError | Some false => Emitted | None => Unresolved end.
-Definition outcome_code (o : outcome) : N := match o with Emitted => 0 | CompileError => 1 | Unresolved => 2 end.
+  else match resolve_op ops d op with Some false => Emitted | Some true => CompileError | None => CompileError end.
+Definition outcome_code (o : outcome) : N := match o with Emitted => 0 | CompileError => 1 end.
